@@ -163,7 +163,11 @@ module.exports = mk({
     // whatever the printer does to them must not invalidate the positions of the map
     const b64 = (x) => Buffer.from(x, 'utf8').toString('base64')
     const ORIG = JSON.stringify({ version: 3, sources: ['o.ts'], names: [], mappings: 'AAAA;AACA;AACA;AACA;AACA;AACA' })
-    const URLS = { missing_file: 'first.js.map', data_url: 'data:application/json;base64,' + b64(ORIG) }
+    // (references that resolve to something that cannot be chained: the plain map of THIS rewrite is due)
+    const URLS = { missing_file: 'first.js.map', data_url: 'data:application/json;base64,' + b64(ORIG),
+      empty_mappings: 'data:application/json;base64,' + b64(JSON.stringify({ version: 3, file: 'app.js', sources: ['o.ts'], names: [], mappings: '' })),
+      empty_object: 'data:application/json;base64,' + b64('{}'), not_json: 'data:application/json;base64,' + b64('hello'), bad_base64: 'data:application/json;base64,@@@@',
+      index_map: 'data:application/json;base64,' + b64(JSON.stringify({ version: 3, sections: [] })), only_semicolons: 'data:application/json;base64,' + b64(JSON.stringify({ version: 3, sources: ['o.ts'], names: [], mappings: ';;;' })) }
     const REFPOS = {
       end_own_line: (u) => `function first(a, b) { return a + b }\nfunction main(c, d) {\n  return c + d.trim()\n}\n//# sourceMappingURL=${u}\n`,
       end_same_line: (u) => `function first(a, b) { return a + b }\nfunction main(c, d) {\n  return c + d.trim()\n} //# sourceMappingURL=${u}`,
